@@ -397,7 +397,7 @@ def oracle_matrix(c, o):
 # ------------------------------------------------------------------------------------------------
 # specialised grams
 def gen_gram(rng, tier):
-    out = []
+    out = list(opzoo.fixed_cart_cases())   # incl. a repeated phase-encoding line and shifted ranges
     for i in range(16 if tier == 'quick' else 300):
         if i % 2 == 0:
             out.append(opzoo.gen_cart(rng))
